@@ -362,9 +362,14 @@ run_case(void) {
     sctx = coap_new_context(NULL);
     for (i = 0; i < cs.nsess; i++) {
       coap_address_t a;
-      sim_addr(&a, "127.0.0.1", (uint16_t)(40001 + i));
-      if (!coap_new_endpoint(sctx, &a, COAP_PROTO_UDP))
+      coap_endpoint_t *ep;
+      sim_addr(&a, "127.0.0.1", 0);          /* a real socket underneath: let the kernel pick the port (drivers run in parallel) */
+      ep = coap_new_endpoint(sctx, &a, COAP_PROTO_UDP);
+      if (!ep) {
+        fprintf(stderr, "drv_rel: cannot create the server endpoint\n");
         exit(2);
+      }
+      peer_addr[i] = ep->bind_addr;
     }
     for (i = 0; i < 3; i++) {
       coap_resource_t *r = coap_resource_init(coap_make_str_const(paths[i]), 0);
@@ -374,7 +379,8 @@ run_case(void) {
     sim_add_node(sctx);
   }
   for (i = 0; i < cs.nsess; i++) {
-    sim_addr(&peer_addr[i], "127.0.0.1", (uint16_t)(40001 + i));
+    if (!cs.srv)
+      sim_addr(&peer_addr[i], "127.0.0.1", (uint16_t)(40001 + i));
     sess[i] = coap_new_client_session(ctx, NULL, &peer_addr[i], COAP_PROTO_UDP);
     fp.integer_part = (uint16_t)(cs.ato / 1000); fp.fractional_part = (uint16_t)(cs.ato % 1000);
     coap_session_set_ack_timeout(sess[i], fp);
